@@ -66,6 +66,7 @@ class Checker:
         self.extra: Dict[str, object] = {}
         self.assumptions: List[str] = []
         self.functions_analysed = set()
+        self._decorated = {}
         self.t0 = time.time()
 
     # ------------------------------------------------------------ recording
@@ -76,6 +77,8 @@ class Checker:
         """Record that a function was analysed."""
         if fi is not None:
             self.functions_analysed.add(getattr(fi, "qualname", str(fi)))
+            if getattr(getattr(fi, "node", None), "decorator_list", None):
+                self._decorated[getattr(fi, "qualname", str(fi))] = fi
 
     def ob(self, rule, fi, stmt, verdict, detail="", path="", nontrivial=True, file=None, function=None, line=None):
         if fi is not None:
@@ -116,7 +119,20 @@ class Checker:
             )
 
     # ------------------------------------------------------------ finishing
+    def _decorator_guard(self):
+        """a wrapped function does not mean what its body says: every analysed function
+        carrying a decorator other than the descriptor ones is reported once"""
+        from rules.sem import check_decorators
+        for qn, fi in sorted(self._decorated.items()):
+            fn = qn.split(":", 1)[-1]
+            if any(o.function == fn and o.statement.startswith("@") for o in self.obs):
+                continue
+            rule = next((o.rule for o in self.obs if o.function == fn), None)
+            if rule is not None:
+                check_decorators(self, rule, [fi])
+
     def finish(self, write=True) -> int:
+        self._decorator_guard()
         kf = load_known_findings()
         open_k = [k for k in kf.get("open", []) if k.get("property") == self.pid]
         viol = [o for o in self.obs if o.verdict == VIOLATED]
